@@ -231,8 +231,17 @@ Fixpoint c06_snap_aux (c : config) (pre : list event) (t : list event) : bool :=
   end.
 Definition c06_holdsb (c : config) (t : list event) : bool := c06_snap_aux c [] t.
 
-(* after shutdown the map reports the state each runnable had when its Stop() returned (runnables do
-   not change state after Stop() returned): checked at snapshots taken after Run() returned *)
+(* the state runnable i had when its Stop() returned: the last Emit before the (first) StopRet i *)
+Fixpoint state_at_stopret (i : nat) (t : list event) (acc : st) : st :=
+  match t with
+  | [] => acc
+  | EEmit j x :: t' => state_at_stopret i t' (if Nat.eqb i j then x else acc)
+  | EStopRet j :: t' => if Nat.eqb i j then acc else state_at_stopret i t' acc
+  | _ :: t' => state_at_stopret i t' acc
+  end.
+
+(* after shutdown the map reports the state each runnable had when its Stop() returned - whatever it did
+   afterwards: checked at snapshots taken after Run() returned (shutdown timeout not configured to fire) *)
 Fixpoint c06_final_aux (c : config) (pre t : list event) : bool :=
   match t with
   | [] => true
@@ -241,7 +250,7 @@ Fixpoint c06_final_aux (c : config) (pre t : list event) : bool :=
      | ESnap o =>
        negb (sn_run_returned o) || shutdown_may_fire c ||
        forallb (fun i => negb (stateable (spec c i)) || negb (mem_ev (EStopRet i) pre)
-                         || opt_st_eqb (nth i (sn_smap o) None) (Some (true_state i pre 0)))
+                         || opt_st_eqb (nth i (sn_smap o) None) (Some (state_at_stopret i pre 0)))
                (seq 0 (nrun c))
      | _ => true
      end) && c06_final_aux c (pre ++ [e]) t'
@@ -285,3 +294,33 @@ Fixpoint c18_bounded_aux (c : config) (pre t : list event) : bool :=
      end) && c18_bounded_aux c (pre ++ [e]) t'
   end.
 Definition c18_bounded (c : config) (t : list event) : bool := c18_bounded_aux c [] t.
+
+(* ---------------------------------------------------------------- C04 (reports clause) *)
+
+(* shutdown triggers other than a runnable's failure *)
+Definition is_nonfail_trigger (e : event) : bool :=
+  match e with
+  | ECall _ OpShutdown | ECall _ (OpSignal SigInt) | ECall _ (OpSignal SigTerm)
+  | EParentCancel | ETrigS _ => true
+  | _ => false
+  end.
+
+(* Run() returns nil only after a trigger that is not a failure: so when a runnable fails and no
+   other trigger occurs, the result is not nil - by chk_result it is then a runnable's real error
+   (or the start-up timeout when that deadline can fire) *)
+Definition chk_reports (pre : list event) (e : event) : bool :=
+  match e with ERunReturn ResNil => existsb is_nonfail_trigger pre | _ => true end.
+Definition c04_reports (c : config) (t : list event) : bool := all_check chk_reports t.
+
+(* ---------------------------------------------------------------- C03 (pending error) *)
+
+(* [c03_pending] above does not hold of every schedule (SupPending.c03_pending_refuted): when the
+   supervisor's context is cancelled while a failure is queued, the readiness wait may take the
+   ctx.Done branch and the start-up loop goes on.  With the exception C03 itself makes ("unless the
+   supervisor's context has already been cancelled") it holds. *)
+Definition chk_pending_nc (pre : list event) (e : event) : bool :=
+  match e with
+  | ERunCall _ => cancel_evidence pre || negb (err_then_quiet false pre)
+  | _ => true
+  end.
+Definition c03_pending_nc (c : config) (t : list event) : bool := all_check chk_pending_nc t.
